@@ -601,7 +601,40 @@ def whole_file(src, kind):
             return ast.copy_location(ast.Assign(
                 targets=[n.target], value=ast.BinOp(left=load, op=n.op, right=n.value)), n)
 
-    T = {'swap-and': SwapAnd, 'swap-branches': SwapBranches, 'expand-aug': ExpandAug}[kind]
+    class ConcatStyle(ast.NodeTransformer):
+        def visit_Call(self, n):
+            self.generic_visit(n)
+            d = ast.unparse(n.func)
+            if d == 'np.append' and len(n.args) == 2 and any(
+                    k.arg == 'axis' and isinstance(k.value, ast.Constant) and k.value.value == 0
+                    for k in n.keywords):
+                return ast.copy_location(ast.Call(
+                    func=n.func.__class__(value=n.func.value, attr='concatenate', ctx=ast.Load()),
+                    args=[ast.Tuple(elts=list(n.args), ctx=ast.Load())], keywords=[]), n)
+            if d == 'np.vstack' and len(n.args) == 1 and not n.keywords:
+                n.func.attr = 'concatenate'
+            return n
+
+    class FStrings(ast.NodeTransformer):
+        def visit_Call(self, n):
+            self.generic_visit(n)
+            if isinstance(n.func, ast.Attribute) and n.func.attr == 'format' and \
+                    isinstance(n.func.value, ast.Constant) and \
+                    isinstance(n.func.value.value, str) and not n.keywords and \
+                    n.func.value.value.count('{}') == len(n.args) and \
+                    '{' not in n.func.value.value.replace('{}', ''):
+                parts = n.func.value.value.split('{}')
+                vals = []
+                for i, p_ in enumerate(parts):
+                    if p_:
+                        vals.append(ast.Constant(value=p_))
+                    if i < len(n.args):
+                        vals.append(ast.FormattedValue(value=n.args[i], conversion=-1))
+                return ast.copy_location(ast.JoinedStr(values=vals), n)
+            return n
+
+    T = {'swap-and': SwapAnd, 'swap-branches': SwapBranches, 'expand-aug': ExpandAug,
+         'concat-style': ConcatStyle, 'fstrings': FStrings}[kind]
     tree = T().visit(tree)
     ast.fix_missing_locations(tree)
     return ast.unparse(tree) + '\n'
@@ -609,6 +642,7 @@ def whole_file(src, kind):
 
 _WHOLE = [(f_, k) for f_ in (S, U, N, B, PS, PR, NE) for k in ('swap-and', 'swap-branches',
                                                               'expand-aug')]
+_WHOLE += [(f_, k) for f_ in (S, U, N, NN) for k in ('concat-style', 'fstrings')]
 
 _RENAME_TARGETS = [
     (S, 'Sampler.add_bound'), (S, 'Sampler.add_samples'), (S, 'Sampler.sample_shell'),
